@@ -61,5 +61,8 @@ func Marshal(val cty.Value, t cty.Type) ([]byte, error) {
 // may be a cty.PathError.
 func Unmarshal(buf []byte, t cty.Type) (cty.Value, error) {
 	var path cty.Path
+	// Optional attribute annotations are meaningful only as a conversion
+	// target, and the type of a value must never carry them.
+	t = t.WithoutOptionalAttributesDeep()
 	return unmarshal(buf, t, path)
 }
